@@ -57,7 +57,30 @@ func (r *Rand) Intn(n int) int {
 // IntRange returns a value in [a,b].
 func (r *Rand) IntRange(a, b int) int { return a + r.Intn(b-a+1) }
 
-func (r *Rand) Float64() float64 { return float64(r.Uint64()>>11) / (1 << 53) }
+// Float64 returns a uniform value in [0,1) with a FULL 52-bit random mantissa whatever its magnitude (the exponent is
+// drawn geometrically first). k/2^53 would put every value on one fixed grid, on which sums and differences of two
+// values are exact - rounding-dependent behaviour (y0 + 1*(y1-y0) != y1) would never be exercised.
+func (r *Rand) Float64() float64 {
+	exp := 0
+	for {
+		u := r.Uint64()
+		if u != 0 {
+			z := 0
+			for u&(1<<63) == 0 {
+				u <<= 1
+				z++
+			}
+			exp += z
+			break
+		}
+		exp += 64
+		if exp > 1000 {
+			return 0
+		}
+	}
+	mant := r.Uint64() >> 12 // 52 bits
+	return math.Float64frombits(uint64(1022-exp)<<52 | mant)
+}
 
 // Range returns a value in [a,b], hitting the end points now and then.
 func (r *Rand) Range(a, b float64) float64 {
